@@ -112,6 +112,9 @@ func oracle(c *Case, sems []sem) (fs []finding, wbUntil int, stats map[string]in
 		case "tick":
 			ticks++
 			F := s.fin
+			if s.hasNodeFin {
+				F = s.nodeFin
+			}
 			if haveFin && F < lastFin {
 				notWB(i, "finalised-height-decreased")
 			}
